@@ -24,7 +24,7 @@
    too).  The model follows /repo after fix 1c49b86 (the nested branch calls
    SavePoint / RollbackTo on db.Session(&Session{}), so their errors no longer stick to the
    enclosing handle); before it the result/usability theorem needed an extra hypothesis. *)
-From Verif Require Import Base C04_Model C04_Check C04_Proofs C04_Proofs2 C04_Proofs3 C04_Proofs4 C04_Proofs5 C04_Proofs6.
+From Verif Require Import Base C04_Model C04_Check C04_Proofs C04_Proofs2 C04_Proofs3 C04_Proofs4 C04_Proofs5 C04_Proofs6 C04_Proofs7.
 Open Scope Z_scope.
 
 (* ATOMICITY. The table afterwards is exactly: everything the observed calls kept, if the block
@@ -188,6 +188,63 @@ Theorem c04_ref_env_laws :
   (forall l, bal false l = true -> pool ref_env l = (0, 0)).
 Proof. exact ref_env_laws. Qed.
 Print Assumptions c04_ref_env_laws.
+
+(* ------------------------------------------------------------------ single calls outside a block
+   [run_singles C fault l s] (C04_Single, evaluated by C04_Check on every case of kind "single") is the
+   model of write / read calls made one after the other on the pool handle, outside any block: a Create
+   runs inside the transaction gorm opens for that one call (callbacks/transaction.go
+   BeginTransaction / CommitOrRollbackTransaction) unless SkipDefaultTransaction, a raw Exec and a query
+   run on the pool.  [fault] is an arbitrary set of failing driver operations. *)
+
+(* ONE WRITE CALL, from any state in which the handle has no transaction open: the call appends its own
+   driver operations [new] and database/sql transaction calls [tl]; every transaction it began is ended
+   (bal), none is open afterwards; if it reports nil the write is durable and no fault hit its BEGIN /
+   statement / COMMIT; if it reports an error, that error is the injected fault, the table is as before
+   and exactly one of its BEGIN / statement / COMMIT was hit (a BEGIN fault is reported and nothing runs
+   outside a transaction; a failed statement is rolled back; a failed COMMIT is reported) *)
+Theorem c04_single_write_all_or_nothing : forall C fault, c_soft C = false ->
+  forall m s c s',
+  s_tx s = None /\ s_dead s = false ->
+  single_write C fault m s = (c, s') ->
+  exists new tl,
+    s_ops s' = new ++ s_ops s /\ s_txlog s' = tl ++ s_txlog s /\ bal false (rev tl) = true /\
+    (s_tx s' = None /\ s_dead s' = false) /\
+    (if is_nil c then s_db s' = s_db s ++ [m] /\ countf3 new = 0%nat
+     else is_fault c = true /\ s_db s' = s_db s /\ countf3 new = 1%nat).
+Proof. exact single_write_step. Qed.
+Print Assumptions c04_single_write_all_or_nothing.
+
+(* ANY SEQUENCE OF CALLS: the table afterwards is the table before plus exactly the writes whose call
+   reported nil, in order; every reported error is the injected fault; the number of calls that
+   reported an error equals the number of faulted BEGIN / statement / COMMIT operations (so no fault is
+   swallowed and no error invented); no transaction is open and every begun one was ended *)
+Theorem c04_single_calls : forall C fault, c_soft C = false ->
+  forall l db0 o s,
+  run_singles C fault l (init_st db0) = (o, s) ->
+  s_db s = db0 ++ single_kept o /\
+  forallb is_fault (flat_map stmt_errs o) = true /\
+  length (flat_map stmt_errs o) = countf3 (rev (s_ops s)) /\
+  s_tx s = None /\ bal false (rev (s_txlog s)) = true.
+Proof. exact singles_top. Qed.
+Print Assumptions c04_single_calls.
+
+(* the checker's specification half for such a case holds on the model's own output *)
+Theorem c04_single_spec_holds : forall C fault, c_soft C = false ->
+  forall (P : list txcall -> Z * Z),
+  (forall l, bal false l = true -> P l = (0, 0)) ->
+  forall l o s,
+  run_singles C fault l (init_st []) = (o, s) ->
+  single_spec (mk_case false (Done RetNil) [] [] C None (OC true o CNil CNil) [] [] (s_db s)
+                 (fst (P (rev (s_txlog s)))) (snd (P (rev (s_txlog s)))) (rev (s_ops s)) [] (-1) (Some l)) = true.
+Proof. exact single_spec_model. Qed.
+Print Assumptions c04_single_spec_holds.
+
+(* non-vacuity: Create 1, Create 2 whose COMMIT fails, Count, raw Exec 3: 1 and 3 durable, 2 not *)
+Example c04_single_instance :
+  let '(o, s) := run_singles (mk_cfg false false false true false false false) (fault_at (Some 5%nat)) single_demo (init_st []) in
+  o = [OW 1 CNil; OW 2 (CErr fault_err); OR CNil 1; OW 3 CNil] /\ s_db s = [1; 3] /\
+  map fst (rev (s_ops s)) = [KBegin; KStmt; KCommit; KBegin; KStmt; KCommit; KStmt; KStmt].
+Proof. exact single_demo_ok. Qed.
 
 (* non-vacuity: a three-level tree with a save point, a failing grandchild whose error the
    child returns and the parent ignores, a RollbackTo and a faulted statement meets every
